@@ -73,7 +73,7 @@ PROPS["C12"] = {
 }
 
 C17_Q = ["Harness_C17_list_1", "Harness_C17_list_2", "Harness_C17_create_0", "Harness_C17_create_1", "Harness_C17_revoke_1", "Harness_C17_revoke_2",
-         "Harness_C17_pages_owner_2", "Harness_C17_pages_owner_3", "Harness_C17_pages_all_2", "Harness_C17_create_1_wide", "Harness_C17_revoke_1_wide", "Harness_C17_list_2_wide"]
+         "Harness_C17_pages_owner_2", "Harness_C17_pages_owner_3", "Harness_C17_pages_all_2", "Harness_C17_create_1_wide", "Harness_C17_revoke_1_wide", "Harness_C17_list_2_wide", "Harness_C17_revoke_padded"]
 PROPS["C17"] = {
     "jobs": [{
         "pkg": "x/cert/keeper",
@@ -164,6 +164,8 @@ PROPS["C05"]["jobs"] = [chain_job("C05"), esc_job("C05")]
 PROPS["C01"]["jobs"] = PROPS["C01"]["jobs"] + [chain_job("C01")]
 PROPS["C03"]["jobs"] = PROPS["C03"]["jobs"] + [chain_job("C03")]
 
+ID_EQ_JOB = {"pkg": "x/market/types", "files": ["harness/C06/equals.go"], "quick": ["Harness_C06_id_equality"], "thorough": ["Harness_C06_id_equality"],
+             "opts": {"timeout": 30000}, "reach": {"Harness_C06_id_equality": ["compared"]}}
 def c06_keys(pkg, f, hs, ths=None):
     return {"pkg": pkg, "files": ["harness/C06/" + f], "quick": hs, "thorough": ths or hs, "opts": {"timeout": 30000}}
 PROPS["C06"] = {
@@ -176,6 +178,7 @@ PROPS["C06"] = {
         c06_keys("x/audit/keeper", "keys_audit.go", ["Harness_C06_audit_keys"]),
         c06_keys("x/cert/keeper", "keys_cert.go", ["Harness_C06_cert_keys"]),
         c06_keys("x/market/types", "ids.go", ["Harness_C06_escrow_ids"]),
+        ID_EQ_JOB,
         chain_job("C06"), esc_job("C06"),
     ],
     "bounds": {"quick": "signers: all 19 message types with arbitrary 20-byte addresses and sequence numbers; key separation: arbitrary 20-byte owner/provider/auditor addresses, arbitrary uint64/uint32 sequence numbers (bit-vectors through the real encoding/binary code), escrow ids with decimal renderings of 1..3 digits (thorough 1..5), certificate serials < 2^24; frame and only-the-signer-pays clauses on the chain step (12 handlers) and escrow step",
@@ -188,8 +191,8 @@ PROPS["C06"] = {
 C07_AUD = ["Harness_C07_audit_update_0_2", "Harness_C07_audit_update_1_2", "Harness_C07_audit_update_2_1", "Harness_C07_audit_update_2_2", "Harness_C07_audit_delete_2_1", "Harness_C07_audit_delete_3_1", "Harness_C07_audit_delete_3_0"]
 def c07_chain():
     j = chain_job("C07")
-    j["quick"] = ["Harness_C07_%s" % h for h in CHAIN_H if h != "CloseDeployment"] + ["Harness_C07_proc_CreateDeployment", "Harness_C07_proc_CreateBid"]
-    j["thorough"] = ["Harness_C07_%s" % h for h in CHAIN_H] + ["Harness_C07_proc_CreateDeployment", "Harness_C07_proc_CreateBid"]
+    j["quick"] = ["Harness_C07_%s" % h for h in CHAIN_H if h != "CloseDeployment"] + ["Harness_C07_proc_CreateDeployment", "Harness_C07_proc_CreateBid", "Harness_C07_CreateLease_13"]
+    j["thorough"] = ["Harness_C07_%s" % h for h in CHAIN_H] + ["Harness_C07_proc_CreateDeployment", "Harness_C07_proc_CreateBid", "Harness_C07_CreateLease_13"]
     j["reach"] = {"Harness_C07_proc_CreateDeployment": ["executed-twice", "accepted"], "Harness_C07_proc_CreateBid": ["executed-twice", "accepted"]}
     return j
 PROPS["C07"] = {
@@ -283,8 +286,8 @@ PROPS["C14"] = {
               "quick": ["Harness_C14_5"], "thorough": ["Harness_C14_6", "Harness_C14_8"],
               "opts": {"timeout": 20000, "witness": 6}, "reach": {"Harness_C14_5": ["returned", "idle"]}},
              {"pkg": "provider/cluster", "files": ["harness/C14/manager.go", "harness/C14/service.go", "harness/C14/hostname.go"], "shims": ["shim.go.tmpl", "shim_loop.go.tmpl"],
-              "quick": ["Harness_C14_service_4", "Harness_C14_hostnames"], "thorough": ["Harness_C14_service_5", "Harness_C14_hostnames"],
-              "opts": {"timeout": 20000, "witness": 4}, "reach": {"Harness_C14_service_4": ["observed"], "Harness_C14_service_5": ["observed"], "Harness_C14_hostnames": ["reserved", "nothing-reserved", "released"]}}],
+              "quick": ["Harness_C14_service_4", "Harness_C14_hostnames", "Harness_C14_hostnames_release"], "thorough": ["Harness_C14_service_5", "Harness_C14_hostnames", "Harness_C14_hostnames_release"],
+              "opts": {"timeout": 20000, "witness": 4}, "reach": {"Harness_C14_service_4": ["observed"], "Harness_C14_service_5": ["observed"], "Harness_C14_hostnames": ["reserved", "nothing-reserved", "released"], "Harness_C14_hostnames_release": ["released-and-retaken"]}}],
     "bounds": {"quick": "(*deploymentManager).run with startDeploy/startTeardown/do/doDeploy/doTeardown: <=6 selects before shutdown is forced, then the post-loop drain; hostname reservation ok/failed, <=2 manifest updates, one lease-closed (teardown) request, deploy and teardown completing ok or failing at any scheduler-chosen point, provider shutdown at any point",
                "thorough": "8 and 10 selects"},
     "stubs": LOOP_STUBS + ["newDeploymentMonitor/newDeploymentWithdrawal -> already-finished stubs in the engine (natively the real ones run against the stub client)", "retry.Do -> up to 3 immediate attempts"],
@@ -297,8 +300,8 @@ PROPS["C20"] = {
               "quick": ["Harness_C20_5"], "thorough": ["Harness_C20_6", "Harness_C20_7"],
               "opts": {"timeout": 20000, "witness": 6}, "reach": {"Harness_C20_5": ["returned", "idle"]}},
              {"pkg": "provider/manifest", "files": ["harness/C20/submit.go"], "shims": ["shim.go.tmpl", "shim_loop.go.tmpl"],
-              "quick": ["Harness_C20_submit"], "thorough": ["Harness_C20_submit"],
-              "opts": {"timeout": 20000, "witness": 2}, "reach": {"Harness_C20_submit": ["accepted-then-abandoned"]}}],
+              "quick": ["Harness_C20_submit", "Harness_C20_handle_stopping"], "thorough": ["Harness_C20_submit", "Harness_C20_handle_stopping"],
+              "opts": {"timeout": 20000, "witness": 2}, "reach": {"Harness_C20_submit": ["accepted-then-abandoned"], "Harness_C20_handle_stopping": ["handled"]}}],
     "bounds": {"quick": "(*service).Submit with a submitter that gives up before or after its request is accepted: the reply channel handed to the manager accepts the manager's single reply without a receiver; manifest (*manager).run: <=5 environment selects before shutdown is forced; <=2 lease notifications, 1 lease removal, <=2 manifest submissions of 3 kinds (valid, other version, structurally invalid) each with its own capacity-1 reply channel, 1 version update, chain-data fetch ok/failed at any scheduler-chosen point, shutdown at any point; validateRequest runs the real validators on concrete manifests",
                "thorough": "6 and 7 selects"},
     "stubs": LOOP_STUBS + ["sdl.ManifestVersion -> injective tag of the manifest content in the engine (the JSON/SHA-256 hash is outside the encodable fragment); natively the real hash", "hostname service -> always available"],
@@ -362,3 +365,7 @@ PROPS["C10"]["bounds"] = {k: v + "; version rule of validateRequest: in the C20 
 PROPS["C02"]["jobs"] = PROPS["C02"]["jobs"] + [esc_job("C02")]
 PROPS["C02"]["bounds"] = {k: v + "; plus the escrow keeper step (see C03): per step a payee is credited at most rate x elapsed blocks, only through its own account, transferred = credited" for k, v in PROPS["C02"]["bounds"].items()}
 PROPS["C02"]["stubs"] = CHAIN_STUBS
+
+# identity of order / group ids is a premise of the inventory (C12) and the bid engine (C13)
+PROPS["C12"]["jobs"] = PROPS["C12"]["jobs"] + [ID_EQ_JOB]
+PROPS["C13"]["jobs"] = PROPS["C13"]["jobs"] + [ID_EQ_JOB]
